@@ -41,7 +41,7 @@ def report(ctx, what, replay, fp):
 
 # ----------------------------------------------------------------- canonical values
 def src_code(vid, it, rl, restart):
-    return ((vid * 4096 + it) * 2 + rl) * 8 + restart
+    return ((vid * 4096 + it) * 16 + rl) * 8 + restart
 
 
 def block_code(sim, arr):
@@ -282,9 +282,20 @@ def run(ctx):
                 t = rng.choice(sorted(etgen.TENSORS))
                 desc["requests"].append(t)
                 desc["vars"] = sorted(set(desc["vars"]) | set(etgen.components(t)))
+            many_levels = (k % 10 == 5)
+            if many_levels:
+                # a run with twelve refinement levels (level labels 10, 11 next to 1): tiny one-chunk levels
+                desc = etgen.random_desc(rng, "c12sim%d" % k, per_proc=False, grouped=grouped, nlevels=12, nrest=1,
+                                         nmax=3, kmax=(1, 1, 1), gmax=1, nvars=1, nits=2)
             sim = etgen.Sim(tmp + "/", desc)
             skip_last = len(desc["restarts"]) >= 2 and rng.random() < 0.2
             calls = random_history(rng, sim, rng.randint(3, 8), skip_last)
+            if many_levels:
+                # cached at levels 11 and 10 first, then read at level 1 (twice: cold and from the cache), then 0 and 2
+                for c, rl in zip(calls, [11, 10, 1, 1, 0, 2, 1, 11]):
+                    c["rl"] = rl
+                    c["split"] = True
+                ctx.count("histories_with_12_levels")
             lay = "%s/%s" % ("proc" if per_proc else "onefile", "group" if grouped else "var")
             layouts[lay] = layouts.get(lay, 0) + 1
             if k == 0:
